@@ -4,7 +4,7 @@ import re
 
 from .. import packed, rx, wire
 from ..core import ob, rule, where
-from ..ir import callee, peel, peel_block
+from ..ir import callee, peel, peel_block, walk
 from ..rx import EPS, VOID, alt, ev, seq
 from ..shape import Analyzer
 
@@ -646,3 +646,39 @@ def cb(facts, tier):
     else:
         yield ob(["C01", "C02", "C03", "C04", "C06", "C09", "C10", "C11", "C12", "C17", "C18"], "CB", "corpus-builds", "pass", "",
                  f"{len(facts.corpus_meta.get('types', []))} corpus definitions and {len(facts.corpus_meta.get('traits', [])) or 6} traits compile")
+
+
+@rule("P7", ["C04", "C03", "C01"], floor=10, doc="the Packed decision is taken afresh, for the file version at hand, wherever it guards a raw copy: no function of "
+      "the library that asks repr_c_optimization_safe touches a static, a thread-local or a cache (a memoised answer is the answer for "
+      "the version of the first call, not of this file)")
+def p7(facts, tier):
+    for f in sorted(facts.fns_of_crate("savefile"), key=lambda g: g["id"]):
+        body = f.get("body")
+        if not body:
+            continue
+        asks = [x for x in walk(body) if x.get("k") == "Call" and (callee(x) or "").endswith("repr_c_optimization_safe")]
+        if not asks:
+            continue
+        im = f.get("impl") or {}
+        if im.get("trait") == "savefile::Packed":
+            continue       # the decision functions themselves (pure by construction: checked by P2's evaluator)
+        state = []
+        for x in walk(body):
+            if x.get("k") == "Static":
+                state.append("static " + str(x.get("id")))
+            if x.get("k") == "Call":
+                c = callee(x) or ""
+                if "LocalKey" in c or c.endswith(("OnceCell::get_or_init", "OnceLock::get_or_init", "Lazy::force")):
+                    state.append(c)
+        # the version argument is the (de)serializer's own file_version
+        args_ok = True
+        for a in asks:
+            if a.get("args"):
+                arg = peel(a["args"][0])
+                ok_arg = (arg.get("k") == "Field" and arg.get("f") == "file_version") or arg.get("k") == "Var"
+                args_ok = args_ok and ok_arg
+        key = f["id"]
+        yield ob(["C04", "C03", "C01"], "P7", key, "violation" if state else ("pass" if args_ok else "undecided"), where(f, asks[0]),
+                 f"{f['id']}: asks the Packed decision directly, for the version it is handed" if not state else
+                 f"{f['id']}: the Packed decision is combined with shared state ({state[0]}): the answer obtained for one file version is "
+                 f"reused for files of another version, and a Vec/array of an evolved struct is bulk-copied with the wrong layout")
